@@ -46,6 +46,7 @@ import (
 	"github.com/ozontech/seq-db/parser"
 	"github.com/ozontech/seq-db/pattern"
 	"github.com/ozontech/seq-db/seq"
+	"github.com/ozontech/seq-db/util"
 
 	"verifharness/internal/vh"
 )
@@ -1001,6 +1002,251 @@ func chanActiveInversePooled(o vh.Opts, g gen) *vh.Channel {
 	return ch
 }
 
+// ---------------------------------------------------------------- channel: util.Bitmask.HasBitsIn
+
+// chanBitmask: the bitmap under seq.MIDsDistribution (one bit per minute of a sealed fraction's time span).
+func chanBitmask(o vh.Opts, g gen) *vh.Channel {
+	ch := vh.NewChannel("bitmask.has", "util.Bitmask.HasBitsIn(left, right) vs SV.Bitmask.hasBitsIn (byte-level model, proved = `a bit of [left,right] is set`): masks of 200 bits with one set bit at every position x ALL pairs left <= right (exhaustive in the thorough tier, every 3rd pair quick), masks with 2..5 random bits x all pairs; non-trivial = left and right lie in different bytes at least two apart")
+	ch.Exhaustive = o.Thorough()
+	const size = 200
+	one := func(bits []int, stride, phase int) {
+		bm := util.NewBitmask(size)
+		for _, b := range bits {
+			bm.Set(b, true)
+		}
+		bin := vh.Hex(bm.GetBitmaskBinary())
+		k := 0
+		for l := 0; l < size; l++ {
+			for r := l; r < size; r++ {
+				k++
+				if k%stride != phase {
+					continue
+				}
+				impl := safely(func() string { return "ok " + vh.B(bm.HasBitsIn(l, r)) })
+				ch.Add(fmt.Sprintf("hasbits %s %d %d", bin, l, r), impl, r/8-l/8 >= 2, fmt.Sprintf("bits=%d", len(bits)))
+			}
+		}
+	}
+	stride := o.Pick(3, 1)
+	for b := 0; b < size; b += o.Pick(7, 1) {
+		one([]int{b}, stride, (b+int(o.Seed))%stride)
+	}
+	for i := 0; i < o.Pick(6, 40); i++ {
+		var bits []int
+		for k := g.r.Range(2, 5); k > 0; k-- {
+			bits = append(bits, g.r.Intn(size))
+		}
+		one(bits, stride*3, i%(stride*3))
+	}
+	one(nil, 50, 0)
+	return ch
+}
+
+// ---------------------------------------------------------------- multi-fraction search (fracmanager.Searcher)
+
+// distFrac is a fraction as the searcher sees it: data from the real fraction; Info / IsIntersecting from an Info
+// whose creation time is chosen by the generator (instead of the wall clock of the run) and whose minute distribution
+// is built by the real Info.BuildDistribution over the fraction's ids - what frac.Seal does for a sealed fraction
+// whose oldest document is >= 10 minutes older than the fraction.
+type distFrac struct {
+	frac.Fraction
+	info *frac.Info
+}
+
+func (d *distFrac) Info() *frac.Info { cp := *d.info; return &cp }
+func (d *distFrac) IsIntersecting(from, to seq.MID) bool { return d.info.IsIntersecting(from, to) }
+func (d *distFrac) Contains(mid seq.MID) bool           { return d.info.IsIntersecting(mid, mid) }
+
+func newDistFrac(f frac.Fraction, docs []doc, creation uint64, sealed bool) *distFrac {
+	real := f.Info()
+	info := &frac.Info{Path: real.Path, DocsTotal: real.DocsTotal, From: real.From, To: real.To, CreationTime: creation}
+	if sealed {
+		ids := make([]seq.ID, len(docs))
+		for i, d := range docs {
+			ids[i] = d.id
+		}
+		info.BuildDistribution(ids)
+	}
+	return &distFrac{Fraction: f, info: info}
+}
+
+const (
+	multiBase   = uint64(1_700_000_000_000) // ms; minute k of the corpus is multiBase + k*60000
+	multiMinute = uint64(60_000)
+)
+
+type multiGroup struct {
+	fpi      int
+	creation uint64
+	kinds    string  // per fraction: a(ctive) | s(ealed preloaded) | r(eopened)
+	parts    [][]doc // documents per fraction, arrival order
+}
+
+func (m *multiGroup) line() string {
+	var ps []string
+	for _, p := range m.parts {
+		ps = append(ps, docsString(p))
+	}
+	return fmt.Sprintf("multi %d %d %s %s", m.fpi, m.creation, m.kinds, strings.Join(ps, "|"))
+}
+
+func (m *multiGroup) all() []doc {
+	var all []doc
+	for _, p := range m.parts {
+		all = append(all, p...)
+	}
+	return all
+}
+
+// build ingests every part into its own fraction and wraps it
+func (m *multiGroup) build(e *env) ([]frac.Fraction, error) {
+	var fs []frac.Fraction
+	for i, p := range m.parts {
+		a, base, err := e.newActive(p, 16, nil)
+		if err != nil {
+			return nil, err
+		}
+		switch m.kinds[i] {
+		case 'a':
+			fs = append(fs, newDistFrac(a, p, m.creation, false))
+		default:
+			pre, re, err := e.seal(a, base)
+			if err != nil {
+				return nil, err
+			}
+			if m.kinds[i] == 's' {
+				fs = append(fs, newDistFrac(pre, p, m.creation, true))
+			} else {
+				fs = append(fs, newDistFrac(re, p, m.creation, true))
+			}
+		}
+	}
+	return fs, nil
+}
+
+func (m *multiGroup) ask(fs []frac.Fraction, s step) sysCase {
+	impl := within(10*time.Second, func() string {
+		sr := fracmanager.NewSearcher(4, fracmanager.SearcherCfg{FractionsPerIteration: m.fpi})
+		return qprAnswer(sr.SearchDocs(context.Background(), append([]frac.Fraction{}, fs...), processor.SearchParams{AST: s.ast, From: seq.MID(s.w.from), To: seq.MID(s.w.to), Limit: s.w.limit, WithTotal: s.w.withTotal, Order: s.w.order}))
+	})
+	c := sysCase{kind: "multi", n: len(m.parts), w: s.w, query: s.enc, docs: docsString(m.all()), impl: impl}
+	c.raw = []string{m.line(), "expectm " + c.key()}
+	return c
+}
+
+// genMulti: 2..4 fractions holding LATE documents (10 min .. 3 h before the fractions' creation, few sparse minutes),
+// many documents with exactly the same millisecond spread over the fractions (distinct rids)
+func (g gen) multi() *multiGroup {
+	k := g.r.Range(2, 4)
+	m := &multiGroup{fpi: g.r.Intn(3), creation: multiBase + 195*multiMinute}
+	var hot []uint64 // shared timestamps
+	for i := g.r.Range(1, 3); i > 0; i-- {
+		hot = append(hot, multiBase+uint64(g.r.Intn(181))*multiMinute+uint64(g.r.Intn(3)))
+	}
+	rid := uint64(0)
+	for f := 0; f < k; f++ {
+		m.kinds += string("sra"[g.r.Intn(3)])
+		var part []doc
+		for mins := g.r.Range(1, 4); mins > 0; mins-- {
+			stamp := multiBase + uint64(g.r.Intn(181))*multiMinute + uint64(g.r.Intn(3))
+			if g.r.Chance(1, 2) {
+				stamp = hot[g.r.Intn(len(hot))]
+			}
+			for c := g.r.Range(1, 5); c > 0; c-- {
+				rid += uint64(g.r.Range(1, 3))
+				r := rid
+				if g.r.Chance(1, 10) {
+					r = ^uint64(0) - rid
+				}
+				part = append(part, doc{id: seq.ID{MID: seq.MID(stamp), RID: seq.RID(r)}, toks: g.docTokens()})
+			}
+		}
+		for i := len(part) - 1; i > 0; i-- { // arrival order shuffled
+			j := g.r.Intn(i + 1)
+			part[i], part[j] = part[j], part[i]
+		}
+		m.parts = append(m.parts, part)
+	}
+	return m
+}
+
+// multiWindow: 20 min .. 3 h starting at any minute of the corpus span (every offset mod 8 bitmask bytes), or the
+// whole range; every limit from 1 to beyond the corpus
+func (g gen) multiWindow(ndocs int) window {
+	w := window{withTotal: g.r.Bool(), limit: g.r.Range(1, ndocs+2)}
+	start := uint64(g.r.Intn(200))
+	w.from = multiBase + start*multiMinute
+	w.to = w.from + uint64(g.r.Range(20, 180))*multiMinute
+	switch g.r.Intn(6) {
+	case 0:
+		w.from, w.to = 0, ^uint64(0)
+	case 1:
+		w.from -= uint64(g.r.Intn(3)) // not minute aligned
+		w.to += uint64(g.r.Intn(3))
+	}
+	if g.r.Bool() {
+		w.order = seq.DocsOrderAsc
+	}
+	return w
+}
+
+func runMulti(e *env, g gen, n int) ([]sysCase, error) {
+	var cases []sysCase
+	for i := 0; i < n && !tooManyHangs(); i++ {
+		m := g.multi()
+		fs, err := m.build(e)
+		if err != nil {
+			return cases, err
+		}
+		nd := len(m.all())
+		for q := 0; q < 12; q++ {
+			ast := g.ast(g.r.Range(0, 2), g.leaf)
+			if q%3 == 0 {
+				ast = lit("_all_", "*")
+			}
+			cases = append(cases, m.ask(fs, step{w: g.multiWindow(nd), ast: ast, enc: encAST(ast)}))
+		}
+	}
+	return cases, nil
+}
+
+// replayMulti re-runs `multi` / `expectm` lines
+func replayMulti(e *env, lines []string) ([]sysCase, error) {
+	var cases []sysCase
+	var m *multiGroup
+	var fs []frac.Fraction
+	for _, l := range lines {
+		f := strings.Fields(l)
+		switch {
+		case len(f) == 5 && f[0] == "multi":
+			m = &multiGroup{kinds: f[3]}
+			m.fpi, _ = strconv.Atoi(f[1])
+			m.creation, _ = strconv.ParseUint(f[2], 10, 64)
+			for _, p := range strings.Split(f[4], "|") {
+				docs, err := parseDocs(p)
+				if err != nil {
+					return nil, err
+				}
+				m.parts = append(m.parts, docs)
+			}
+			if len(m.kinds) != len(m.parts) {
+				return nil, fmt.Errorf("bad multi line")
+			}
+			var err error
+			if fs, err = m.build(e); err != nil {
+				return nil, err
+			}
+		case len(f) == 9 && f[0] == "expectm" && m != nil: // expectm multi <n> <window: 5 fields> <query>
+			ast, _, err := decAST(strings.Split(f[8], "/"))
+			if err != nil {
+				return nil, err
+			}
+			cases = append(cases, m.ask(fs, step{w: parseWindow(f[3:8]), ast: ast, enc: f[8]}))
+		}
+	}
+	return cases, nil
+}
+
 // ---------------------------------------------------------------- channel: sealed LID blocks with tiny capacities
 
 type noCounter struct{}
@@ -1460,6 +1706,7 @@ type sysCase struct {
 	impl  string
 	h     *history
 	large bool
+	raw   []string // multi-fraction cases carry their own replay lines
 	pre   *history // pair probe: the corpus of the other fraction, ingested before this one
 }
 
@@ -1468,6 +1715,9 @@ func (c sysCase) key() string {
 }
 
 func (c sysCase) replay() []string {
+	if c.raw != nil {
+		return c.raw
+	}
 	var ls []string
 	if c.pre != nil {
 		ls = c.pre.lines()
@@ -1751,6 +2001,11 @@ func main() {
 		if err != nil {
 			orc.Error = err.Error()
 		}
+		if mc, err := replayMulti(e, lines); err != nil {
+			orc.Error = err.Error()
+		} else {
+			sys = append(sys, mc...)
+		}
 		for k, h := range hs {
 			cs, err := runCorpus(e, h, nil)
 			if err != nil {
@@ -1766,6 +2021,9 @@ func main() {
 	} else {
 		if want("node.merge") {
 			rep.AddChannel(chanNodes(o, gen{rng0.Fork()}), o.Driver)
+		}
+		if want("bitmask.has") {
+			rep.AddChannel(chanBitmask(o, gen{vh.NewRNG(o.Seed + 80)}), o.Driver)
 		}
 		if want("node.rangego") {
 			rep.AddChannel(chanRangeGo(o, gen{vh.NewRNG(o.Seed + 77)}), o.Driver)
@@ -1867,6 +2125,15 @@ func main() {
 					break
 				}
 				sys = append(sys, cs...)
+			}
+			// several fractions behind fracmanager.Searcher: time pre-filter (minute distribution of sealed fractions with
+			// late documents), merge of the partial results (ties on the millisecond across fractions), limit
+			if orc.Error == "" && !tooManyHangs() {
+				mc, err := runMulti(e, gen{vh.NewRNG(o.Seed + 81)}, o.Pick(60, 500))
+				if err != nil {
+					orc.Error = err.Error()
+				}
+				sys = append(sys, mc...)
 			}
 			// one token spanning three LID blocks (LIDBlockCap = 64Ki): 135000 documents all carrying `_all_`, asked on the
 			// sealed forms only, windows at the old end of the fraction (beyond the token's first two LID blocks)
@@ -2010,7 +2277,9 @@ func main() {
 				}
 				if c.impl != spec[i] {
 					site := "frac/active_index.go:activeDataProvider.Search"
-					if !strings.HasPrefix(kind, "active") {
+					if kind == "multi" {
+						site = "fracmanager/searcher.go:Searcher.SearchDocs"
+					} else if !strings.HasPrefix(kind, "active") {
 						site = "frac/sealed_index.go:sealedDataProvider.Search"
 					}
 					what := fmt.Sprintf("%s fraction answered %q, Spec.search says %q", label, trunc(c.impl), trunc(spec[i]))
